@@ -112,7 +112,7 @@ pub fn campaigns(ctx: &Ctx) -> Stats {
         let fan = crate::scale::fan_in_cases("c01", t == Tier::Thorough);
         st.merge(ctx.run_indexed("one-node-consumed-up-to-70001-times", fan.len() as u64, None, |i| Some(fan[i as usize].clone())));
     }
-    let depths: Vec<usize> = t.pick(vec![1, 2, 3, 5, 8, 13, 21, 34, 64], vec![1, 2, 3, 5, 8, 13, 21, 34, 64, 128, 256]);
+    let depths: Vec<usize> = t.pick(vec![1, 2, 3, 5, 8, 13, 21, 34, 64, 130, 270, 400], vec![1, 2, 3, 5, 8, 13, 21, 34, 64, 128, 256, 400, 700, 1000]);
     let nd = depths.len() as u64;
     st.merge(ctx.run_indexed("deep-chains", nd * 4 * 3, None, |i| {
         let depth = depths[(i % nd) as usize];
